@@ -10,7 +10,7 @@
    law [sense (tr_surf t o) p = sense o (inv t p)] (numeric content: C04) and equal cache keys
    being the same motion. *)
 From Coq Require Import List ZArith Bool.
-From T4V Require Import C05.Model C05.Spec C05.Proofs C05.Exec C05.Example.
+From T4V Require Import C05.Model C05.Spec C05.Proofs C05.Exec C05.Example C05.LinkC04.
 Import ListNotations.
 Open Scope Z_scope.
 
@@ -183,6 +183,17 @@ Proof.
   exact (proj1 (proj1 (Paths_NoDup T surf s du Hdu) key chs HP)).
 Qed.
 Print Assumptions C05_descents_distinct.
+
+(* ... and the returned cells themselves are pairwise distinct (their provenance determines the
+   descent): exactly ONE returned cell stands for the located descent *)
+Theorem C05_returned_cells_distinct :
+  forall (T surf P : Type) (tr_empty : T -> bool) (inv : T -> P -> P) (sense : surf -> P -> bool)
+         (s : state T surf) du s' key ks chs,
+  (forall u, NoDup (du_get u du)) ->
+  Paths T surf s du key chs ->
+  Forall2 (Represents T surf P tr_empty inv sense s du s' key) ks chs -> NoDup ks.
+Proof. exact outcome_keys_distinct. Qed.
+Print Assumptions C05_returned_cells_distinct.
 
 Theorem C05_by_universe_lists :
   forall (T : Type) (cells : list (Z * cell T)) u,
@@ -403,3 +414,108 @@ Example C05_example_chain :
 Proof.
   split; [exact ex_nodup|]. split; [exact ex_ref_free|]. split; [exact ex_locatedW | exact ex_chain].
 Qed.
+
+(* ===== LINKED with C04 (coq/C05/LinkC04.v) =====================================================
+   The abstract parameters are instantiated with C04's model over the reals:
+     points = R^3;  motion = the empty tuple | (O, B) with orthonormal rows, compared as the 12
+     numbers;  m_inv (O,B) p = B (p - O) (C04.Spec.to_aux);  wfentry = dictionary entries
+     (lists of (part, side)) whose parts are of the kinds C04 covers (C04 part_wf: frame-form
+     planes, spheres, cylinders, cones, tori; GQ / SQ with ten numbers);  m_tr_surf (O,B) =
+     C04.Model.tr_all RS (tr12 O B), i.e. transformation() on every part;  m_sense e p = "p is on
+     the positive side of the entry" in C04's reading (entry_pos).
+   The two laws that every C05 theorem assumes are THEOREMS here, from C04's transformation law
+   (tr_all_law / C04_transformation_law), to_aux_to_main and cols_orthonormal. *)
+Theorem C05_interface_laws_linked :
+  sense_law m_tr_surf m_inv m_sense /\ key_law m_empty m_eqb m_inv.
+Proof. split; [exact m_sense_law | exact m_key_law]. Qed.
+Print Assumptions C05_interface_laws_linked.
+
+(* the chain TRCL -> FILL -> inlining over real points, no law left as a hypothesis *)
+Theorem C05_pipeline_located_linked :
+  forall fuel cf ifd ifg num den (s0 s1 s2 : state motion wfentry) rs cells3,
+  fresh_ok motion wfentry s0 -> s_cache s0 = [] -> NoDup (map fst (s_cells s0)) ->
+  all_ref_free motion wfentry s0 ->
+  (forall c cl, dget c (s_cells s0) = Some cl -> c_orig cl = []) ->
+  trcl_phase motion wfentry m_empty m_eqb m_tr_surf fuel (map fst (s_cells s0)) s0 = Ok s1 ->
+  fill_phase motion wfentry m_empty m_eqb m_tr_surf fuel cf ifd ifg s1 = Ok (rs, s2) ->
+  inline_cells motion fuel num den (s_cells s2) = Ok cells3 ->
+  Forall2 (OutcomeW motion wfentry C04.Spec.R3 m_empty m_inv m_sense s0 (by_universe (s_cells s0))
+                    (set_cells motion wfentry s2 cells3))
+          (fill_keys (s_cells s0)) rs.
+Proof. exact pipeline_located_linked. Qed.
+Print Assumptions C05_pipeline_located_linked.
+
+Theorem C05_fill_phase_located_linked :
+  forall fuel cf ifd ifg (s : state motion wfentry) rs s',
+  fresh_ok motion wfentry s -> s_cache s = [] ->
+  (forall c cl, dget c (s_cells s) = Some cl -> c_orig cl = []) ->
+  fill_phase motion wfentry m_empty m_eqb m_tr_surf fuel cf ifd ifg s = Ok (rs, s') ->
+  extends motion wfentry s s' /\
+  cache_coherent motion wfentry C04.Spec.R3 m_empty m_eqb m_inv m_sense s' /\
+  Forall2 (Outcome motion wfentry C04.Spec.R3 m_empty m_inv m_sense s (by_universe (s_cells s)) s')
+          (fill_keys (s_cells s)) rs.
+Proof. exact fill_phase_located_linked. Qed.
+Print Assumptions C05_fill_phase_located_linked.
+
+Theorem C05_pot_transform_den_linked :
+  forall fuel t e (s : state motion wfentry) e' s',
+  Inv motion wfentry C04.Spec.R3 m_empty m_inv m_sense s ->
+  pot_transform motion wfentry m_empty m_eqb m_tr_surf fuel t e s = Ok (e', s') ->
+  Inv motion wfentry C04.Spec.R3 m_empty m_inv m_sense s' /\ extends motion wfentry s s' /\
+  forall p b, Den motion wfentry C04.Spec.R3 m_sense s (act motion C04.Spec.R3 m_empty m_inv t p) e b ->
+              Den motion wfentry C04.Spec.R3 m_sense s' p e' b.
+Proof. exact pot_transform_den_linked. Qed.
+Print Assumptions C05_pot_transform_den_linked.
+
+Theorem C05_trcl_phase_den_linked :
+  forall fuel keys (s s' : state motion wfentry),
+  fresh_ok motion wfentry s -> s_cache s = [] -> NoDup keys -> all_ref_free motion wfentry s ->
+  trcl_phase motion wfentry m_empty m_eqb m_tr_surf fuel keys s = Ok s' ->
+  fresh_ok motion wfentry s' /\ s_cache s' = [] /\ surf_extends motion wfentry s s' /\
+  all_ref_free motion wfentry s' /\
+  (forall k cl, In k keys -> dget k (s_cells s) = Some cl ->
+     exists g', dget k (s_cells s') = Some (with_geom cl g') /\
+       forall p b, Den motion wfentry C04.Spec.R3 m_sense s
+                       (act_seq motion C04.Spec.R3 m_empty m_inv (c_trcl cl) p) (c_geom cl) b ->
+                   Den motion wfentry C04.Spec.R3 m_sense s' p g' b) /\
+  (forall k, ~ In k keys -> dget k (s_cells s') = dget k (s_cells s)).
+Proof. exact trcl_phase_den_linked. Qed.
+Print Assumptions C05_trcl_phase_den_linked.
+
+Theorem C05_cell_transform_den_linked :
+  forall fuel k t cache (s : state motion wfentry) k' s',
+  Inv motion wfentry C04.Spec.R3 m_empty m_inv m_sense s ->
+  cell_transform motion wfentry m_empty m_eqb m_tr_surf fuel k t cache s = Ok (k', s') ->
+  Inv motion wfentry C04.Spec.R3 m_empty m_inv m_sense s' /\ extends motion wfentry s s' /\
+  forall p b, Den motion wfentry C04.Spec.R3 m_sense s (act motion C04.Spec.R3 m_empty m_inv t p) (TRef k) b ->
+              Den motion wfentry C04.Spec.R3 m_sense s' p (TRef k') b.
+Proof. exact cell_transform_den_linked. Qed.
+Print Assumptions C05_cell_transform_den_linked.
+
+(* how a surface leaf of a C05 tree reads in C04's vocabulary: a positive literal is C04's
+   entry_pos exactly; C04's strict entry_neg implies the negative literal (they differ only at
+   points lying on a part of the entry) *)
+Theorem C05_leaf_region_linked :
+  forall (s : state motion wfentry) p x (we : wfentry),
+  dget (Z.abs x) (s_surfs s) = Some we ->
+  Den motion wfentry C04.Spec.R3 m_sense s p (TSurf x) (lit x (m_sense we p)) /\
+  (0 <= x -> (lit x (m_sense we p) = true <-> C04.ProofsTree.entry_pos (proj1_sig we) p)) /\
+  (x < 0 -> C04.ProofsTree.entry_neg (proj1_sig we) p -> lit x (m_sense we p) = true).
+Proof. exact Den_leaf_region. Qed.
+Print Assumptions C05_leaf_region_linked.
+
+(* non-vacuity of the instance: PX 0 moved by the translation (2,0,0) *)
+Example C05_example_linked :
+  m_sense (m_tr_surf ex_motion ex_entry) ex_p3 = true /\     (* the point (3, 0, 0) *)
+  m_sense (m_tr_surf ex_motion ex_entry) ex_p1 = false.      (* the point (1, 0, 0) *)
+Proof. exact ex_law. Qed.
+
+(* ... and a deck over real surfaces (cell 1 = x < 0 filled with universe 1 moved by (2,0,0),
+   universe 1 = {x < 0, x > 0}) on which the linked chain runs and returns two cells *)
+Example C05_example_chain_linked :
+  trcl_phase motion wfentry m_empty m_eqb m_tr_surf 5 (map fst (s_cells ex_link_state)) ex_link_state
+    = Ok ex_l1 /\
+  fill_phase motion wfentry m_empty m_eqb m_tr_surf 5 5 false false ex_l1 = Ok ex_l2 /\
+  inline_cells motion 9 1 1 (s_cells (snd ex_l2)) = Ok ex_l3 /\
+  fst ex_l2 = [[13; 15]].
+Proof. exact ex_link_runs. Qed.
